@@ -237,6 +237,30 @@ def check_value(out, fail, produce, mod, cid, expected, label, st, bname, REC, R
             fail("recorded result type does not match the value read back",
                  "%s: recorded %s, value read back is %s (documented type %s)"
                  % (label, m.invocation_metadata.result_type, domain.describe(back, 80), models.spec_result_type(back)))
+    if type(expected) in (list, dict) and bname != "memory" and mod == "normal":
+        # a function that finishes, in place, what a nested call returned and hands on the very same object: its own result
+        # is the finished value, on the first call and on every later one (also once the memory cache has lost it)
+        import copy as _copy
+
+        from vf import ffuncs as _ff
+
+        inner = "inner-" + cid
+        _ff.TABLE[inner] = (lambda v=expected: _copy.deepcopy(v))
+        want = _copy.deepcopy(expected)
+        want.append("finished") if isinstance(want, list) else want.__setitem__("finished", True)
+        got1 = call(_ff.decorate, "normal", inner)
+        if getattr(st, "_memory_cache", None) is not None:
+            st._memory_cache.forget_everything()
+        mark = REC.mark()
+        got2 = call(_ff.decorate, "normal", inner)
+        out["obs"]["nested_results_finished_in_place"] += 1
+        for which, g in (("first", got1), ("later", got2)):
+            if g[0] != "ret" or not domain.eq_safe(g[1], want)[0]:
+                fail("later call returns a value that is not equal / not of the same type",
+                     "%s value %s: a function that finishes a nested call's result in place: %s call returned %s, the body returns %s"
+                     % (label, desc, which, domain.describe(g[1], 100), domain.describe(want, 100)))
+        if REC.since(mark):
+            fail("later call ran the body again", "%s: function finishing a nested result in place" % label)
     # forgetting the call makes exactly that call run again
     other = "other-" + cid
     from vf import ffuncs
